@@ -197,6 +197,9 @@ func checkC12(c *Check) {
 		c.floor("fallback merge stores", 1, len(edgeSources(v.pg, merge)))
 		c.noPathFrom(v.pg, "O-C12.4", "only Unknown OCSP entries are merged into a CRL verdict", "OCSP server results are merged into another result only when the OCSP verdict is Unknown (so OK never coexists with a Revoked entry)", CallKey(v.OC), edgeSources(v.pg, merge), ptr(AnyOf(A("+Eq(0, "+v.OC+".Result)"), RangeNext(v.L))))
 	}
+	// "exactly one result per certificate": the results are returned only after every started check
+	// has stored its slot - the join rules of O-C17.1
+	c.floor("join rules (shared with C17)", 4, shareRules(c, checkC17, []string{"O-C17.1"}, "O-C12.2", "join: "))
 	// (3) Server fields inside the internal packages
 	checkServerFields(c)
 	// (4) verdict literals
